@@ -360,7 +360,7 @@ def _dispatch(j):
 
 
 def run(tier, seed):
-    n = 108 if tier == "quick" else 1300
+    n = 108 if tier == "quick" else 650
     jobs = [(job, (seed, i, tier)) for i in range(n)] + [(n2w_job, (seed, i, tier)) for i in range(12 if tier == "quick" else 100)]
     res = Result()
     for r in core.pmap(_dispatch, jobs):
